@@ -13,5 +13,5 @@ s=s.replace(sys.argv[2], sys.argv[3], 1)
 open(p,'w').write(s)
 PY
 (cd /tmp/mut/repo && PATH=/opt/veriftools/go1.26.8/bin:$PATH GOFLAGS=-mod=mod GOPROXY=off GOSUMDB=off GOTOOLCHAIN=local go build ./... ) || { echo "MUTANT DOES NOT COMPILE"; exit 3; }
-/verif/bin/govc unit -repo /tmp/mut/repo "$@" 2>&1 | grep -v "^      model\|^unit \|^loaded" | cut -c1-150 | tail -8
+/verif/bin/govc unit ${SWEEP:+-sweep} -repo /tmp/mut/repo "$@" 2>&1 | grep -v "^      model\|^unit \|^loaded" | cut -c1-150 | tail -8
 rm -rf /tmp/mut
